@@ -17,6 +17,7 @@ RULE = ("case = one adversarial string s (quotes, backslash sequences, newline/t
         "exactly key s (a decoy under the unescaped reading is ignored); to_dict writes exactly key s; Literal/enum "
         "return exactly s; a sentinel function embedded in s is never called and no os.system / subprocess / sentinel "
         "file audit event occurs. distinct_nontrivial = distinct (position, option vector, string) triples.")
+RULE += " Additions: lone optional Any TypedDict key; keys of an earlier forbid_extra_keys class; null values under the alias key."
 ASSUMPTIONS = ["the alphabet is finite (45 hand-written strings + random compositions)",
                "the audit hook sees only events Python audits (exec/compile/os.system/subprocess.Popen/open)"]
 BUDGET_S = {"quick": 120, "thorough": 900}
